@@ -32,6 +32,31 @@ CHECKS['C20'] = dict(
    technique='Coq proof that both parsers are invariant under any re-spacing (all Unicode whitespace) and that the modelled expansion equals the runtime value under measured assumptions R1/R2 + compiler-in-the-loop differential check (generated crates expanded by rustc vs runtime parser vs extracted model)',
    text='8 theorems: whitespace invariance of parse_simple/parse_inter, macro = runtime under R1 (token printer changes only whitespace) and R2 ({:?} floats read back exactly), error half, never-silently-different; each run builds crates with hundreds of invocations (5..600 chars, so the token printer wraps them) and compares every coefficient/exponent bit for bit, plus a crate of ungrammatical invocations checked through rustc JSON diagnostics; R1/R2 measured on every text',
    note=COMMON_NOTE + '; R1/R2 are Section hypotheses measured at run time; rustc and cargo are in the loop', ref='DESIGN.md §5 C20')
+
+CHECKS['C02'] = dict(
+   technique='Coq proof (documented multivariate grammar accepted with canonical terms; converse; evaluation = sum of coefficient times product of value^exponent; missing variable is an error; agreement with the univariate parser) + differential correspondence + exact/50-digit oracle',
+   text='9 theorems for all strings/assignments: c02_accept_canonical (every rendering of the documented grammar parses to terms_of src with variables stably sorted and merged, for every arithmetic instance), sortedness/set-of-letters corollaries, c02_eval (R: value = sum coef * prod Rpowf), natural-domain reading of powf, c02_missing_var, totality of eval_univariate incl. constant polynomials, c02_agree_univariate (both parsers denote the same function on the common sub-language); structure and coefficients/exponents compared bit for bit, libm powf compared under an envelope',
+   note=COMMON_NOTE + '; f64::powf (libm) is modelled exactly only for integral exponents, otherwise judged by a 50-digit decimal oracle', ref='DESIGN.md §5 C02')
+CHECKS['C03'] = dict(
+   technique='Coq proof with Coquelicot (is_derive of the evaluated polynomial for both types, shape of derivative terms, closure of well-formedness under all derive/integrate entry points) + bit-for-bit differential correspondence through the real parsers + exact symbolic oracle',
+   text='10 theorems: c03_simple and c03_partial (the returned derivative evaluates to the true (partial) derivative at every point of the natural domain, terms without the variable vanish, no zero exponent remains), absent/multi-letter variables give the zero polynomial, c03_closed and c03_closed_univariate (results are well-formed and usable through every entry point, incl. constant polynomials, to any chain depth); chains of derive/integrate/evaluate to depth 3 compared bit for bit',
+   note=COMMON_NOTE, ref='DESIGN.md §5 C03')
+CHECKS['C04'] = dict(
+   technique='Coq proof with Coquelicot (antiderivative property, zero constant of integration, analytical_integral = RInt, additivity and antisymmetry) + bit-for-bit differential correspondence + exact oracle',
+   text='18 theorems: integral coefficient 0 is 0 and every multivariate integral term contains the variable, simple_derivative (simple_integral p) = p, is_derive of the integral equals the polynomial for both types (no exponent -1), well-formedness closure, analytical_integral p a b = RInt (eval p) a b for both types, additivity over adjacent intervals and sign change under swapped bounds (also on the returned values)',
+   note=COMMON_NOTE, ref='DESIGN.md §5 C04')
+CHECKS['C11'] = dict(
+   technique='Coq proof over any commutative ring (dot = algebraic product for every conforming shape incl. 1x1 and empty dimensions, scalar cases, shape errors, operator forms, associativity/transpose/identity laws) + exhaustive shape-pair correspondence on i64 (exact) and f64 (bit for bit)',
+   text='8 theorems on the flat-buffer record model: c11_conforming, c11_scalar_left/right, c11_shape_error (never a panic on well-formed arrays), c11_operator (four Mul forms = dot or the empty array), c11_scalar_ops, c11_transpose, c11_laws (identity, transpose of a product, full associativity); all 1296 shape pairs in 0..5 x 0..5 x ownership forms x scalar forms run against the Rust code',
+   note='Coq kernel, no axioms; extraction + OCaml driver; Rust harness; Python integer/Fraction oracle', ref='DESIGN.md §5 C11')
+CHECKS['C12'] = dict(
+   technique='Coq refinement proof (flat-buffer state machine refines the plain grid for every operation, lifted to all operation sequences by induction) + exhaustive-depth and long random histories replayed on the real Arr2D<i64>',
+   text='5 theorems: c12_inv (length inner = height*width preserved), c12_refine (every operation: same output incl. Err/Panic, abstraction commutes, state unchanged on failure), c12_observe (every observation equals the grid\'s, incl. Display text), c12_histories (all operation sequences), c12_invalid_documented (the failing outputs are exactly the documented ones); sequences to depth 3 (thorough 4) from all shapes 0..3 x 0..3 plus random length-40 histories, full observation compared after every step',
+   note='Coq kernel, no axioms; extraction + OCaml driver; Rust harness; independent Python grid oracle; not covered: ConversionFailed in TryFrom, f64 histories, usize overflow of height*width', ref='DESIGN.md §5 C12')
+CHECKS['C13'] = dict(
+   technique='Coq proof (panic-aware model never panics and terminates within MAX_ITERATIONS for every matrix and arithmetic; shape/normalisation/Rayleigh-quotient facts on Ok; exit means small relative change) + bit-for-bit correspondence incl. runs to the iteration cap + exact residual/eigenvalue oracle',
+   text='4 theorems: c13_total (all instances: no panic, at most MAX_ITERATIONS iterations, n x 1 vector or NoConvergence, non-square/empty rejected), c13_shape_norm (R: largest component 1, lambda = Rayleigh quotient), c13_exit_means_small_change, c13_accuracy_partial (n = 1 only; the spectral accuracy bounds are decided by the oracle on symmetric Q D Q^T with gap <= 1/2)',
+   note=COMMON_NOTE + '; accuracy half (residual and eigenvalue bounds) is measured by the oracle, not proved', ref='DESIGN.md §5 C13')
 NOT_APPLICABLE = {}
 ALL = ['C%02d' % i for i in range(1, 21)]
 PENDING_REASON = 'not claimed yet in this revision: model/proof under construction (see DESIGN.md §9); no check is registered so nothing is asserted'
